@@ -8,8 +8,10 @@
    ThreadPool::worker_thread, and scan_input's sequential skeleton.  The thread pool itself is
    Model/Pool.v.
 
+   Also: the `[namespace:]path` resolution of compile_rules and parse_define (args/compiler.rs).
+
    Not modelled: clap's parsing of argv, compile diagnostics, -D / --scan-stats output,
-   process targets, the console module, timeouts.
+   process targets, the console module, timeouts, the value of a float define (classified only).
 
    The library is a parameter: `lib path` is what the callback API delivers for that file
    (all events of an uninterrupted scan, in delivery order) or the error text of
@@ -123,6 +125,105 @@ Definition params_eqb (a b : scan_params) : bool :=
   && opt_eqb N.eqb (p_timeout a) (p_timeout b)
   && (p_max_fetched_region_size a =? p_max_fetched_region_size b)
   && (p_frag_mode a =? p_frag_mode b).
+
+(* ------------------------------------------------------------------ compile_rules / args/compiler.rs *)
+Fixpoint split_once (sep : N) (s : bytes) : option (bytes * bytes) :=
+  match s with
+  | [] => None
+  | c :: rest => if c =? sep then Some ([], rest)
+                 else match split_once sep rest with Some (a, b) => Some (c :: a, b) | None => None end
+  end.
+
+(* `[NAMESPACE:]RULES_FILE`: the whole argument is tried as a path first (a colon is legal in a file
+   name); only when no such file exists is it split at the first colon *)
+Definition resolve_rules_arg (path_exists : bytes -> bool) (arg : bytes) : option bytes * bytes :=
+  if path_exists arg then (None, arg)
+  else match split_once 58 arg with
+       | Some (ns, p) => (Some ns, p)
+       | None => (None, arg)
+       end.
+
+(* parse_define: VAR=VALUE; true / false; a value containing '.' is a float if it parses as one;
+   otherwise an integer if it parses as an i64; otherwise a byte string *)
+Inductive ext_value := XBool (b : bool) | XInt (z : Z) | XFloat (text : bytes) | XBytes (s : bytes).
+
+Definition is_digit (c : N) : bool := (48 <=? c) && (c <=? 57).
+
+Fixpoint digits_value (acc : Z) (s : bytes) : option Z :=
+  match s with
+  | [] => Some acc
+  | c :: rest => if is_digit c then digits_value (acc * 10 + Z.of_N (c - 48)) rest else None
+  end.
+
+(* i64::from_str: optional sign, at least one digit, nothing else, no overflow *)
+Definition parse_i64 (s : bytes) : option Z :=
+  let '(neg, body) := match s with
+                      | 45 :: r => (true, r)
+                      | 43 :: r => (false, r)
+                      | _ => (false, s)
+                      end in
+  match body with
+  | [] => None
+  | _ => match digits_value 0 body with
+         | Some v => let z := if neg then (- v)%Z else v in
+                     if ((-9223372036854775808 <=? z) && (z <=? 9223372036854775807))%Z then Some z else None
+         | None => None
+         end
+  end.
+
+(* the decimal subset of f64::from_str that contains a '.':  [+-] digits* '.' digits* ([eE] [+-] digits+)?
+   with at least one mantissa digit ("inf", "nan", hex floats have no '.', "infinity." does not parse) *)
+Fixpoint span_digits (s : bytes) : bytes * bytes :=
+  match s with
+  | c :: rest => if is_digit c then let '(d, r) := span_digits rest in (c :: d, r) else ([], s)
+  | [] => ([], [])
+  end.
+
+Definition parses_as_float (s : bytes) : bool :=
+  let body := match s with 45 :: r => r | 43 :: r => r | _ => s end in
+  let '(int_part, r1) := span_digits body in
+  match r1 with
+  | 46 :: r2 =>
+      let '(frac, r3) := span_digits r2 in
+      match int_part, frac with
+      | [], [] => false
+      | _, _ =>
+          match r3 with
+          | [] => true
+          | e :: r4 =>
+              if (e =? 101) || (e =? 69)
+              then let r5 := match r4 with 45 :: r => r | 43 :: r => r | _ => r4 end in
+                   let '(ex, r6) := span_digits r5 in
+                   match ex, r6 with
+                   | _ :: _, [] => true
+                   | _, _ => false
+                   end
+              else false
+          end
+      end
+  | _ => false
+  end.
+
+Definition parse_define (arg : bytes) : option (bytes * ext_value) :=
+  match split_once 61 arg with
+  | None => None                                   (* clap reports "missing '=' delimiter" *)
+  | Some (name, value) =>
+      Some (name,
+            if bytes_eqb value (B "true") then XBool true
+            else if bytes_eqb value (B "false") then XBool false
+            else if existsb (N.eqb 46) value
+                 then if parses_as_float value then XFloat value else XBytes value
+                 else match parse_i64 value with Some z => XInt z | None => XBytes value end)
+  end.
+
+Definition ext_value_eqb (a b : ext_value) : bool :=
+  match a, b with
+  | XBool x, XBool y => Bool.eqb x y
+  | XInt x, XInt y => (x =? y)%Z
+  | XFloat x, XFloat y => bytes_eqb x y
+  | XBytes x, XBytes y => bytes_eqb x y
+  | _, _ => false
+  end.
 
 (* ------------------------------------------------------------------ library events *)
 Inductive event :=
